@@ -626,3 +626,37 @@ def nonce_stage(prop):
     st.samples.append(script["table"][0])
     st.wall = time.time() - t0
     return st
+
+
+def apalache_stage(prop, module, inv, length, negative_inv=None, timeout=900, cinit=None, negative_cinits=(), note=None):
+    """Symbolic bounded check with Apalache (used where a quantity such as the input length or the chunk size is left symbolic)."""
+    import subprocess, shutil
+    st = StageResult(f"apalache:{module}")
+    t0 = time.time()
+    wd = vlib.workdir(f"{prop}_apalache_{module}")
+    shutil.copy(os.path.join(vlib.SPEC, module + ".tla"), wd)
+
+    def run(i, ci, tag):
+        cmd = ["timeout", str(timeout), "apalache-mc", "check", f"--length={length}", f"--inv={i}", "--out-dir=" + os.path.join(wd, "out_" + tag)]
+        if ci:
+            cmd.append(f"--cinit={ci}")
+        p = subprocess.run(cmd + [module + ".tla"], cwd=wd, stdout=subprocess.PIPE, stderr=subprocess.STDOUT, text=True)
+        return p.stdout
+    out = run(inv, cinit, "main")
+    if "The outcome is: NoError" not in out:
+        if "The outcome is: Error" in out:
+            raise vlib.ToolError(f"Apalache refutes {inv} of {module} on the specification itself:\n" + out[-1500:])
+        raise vlib.ToolError(f"Apalache failed on {module}:\n" + out[-2000:])
+    st.states += length + 1          # symbolic steps explored (each covers every input)
+    st.transitions += length
+    st.samples.append({"apalache": module, "invariant": inv, "symbolic_steps": length, "outcome": "NoError"})
+    negs = ([(cinit, negative_inv)] if negative_inv else []) + [(c, inv) for c in negative_cinits]
+    for (ci, ni) in negs:
+        outn = run(ni, ci, f"neg_{ci}_{ni}")
+        caught = "The outcome is: Error" in outn
+        st.negatives.append({"name": f"{ci or ''}:{ni}", "expected": "refuted", "violated": ["refuted"] if caught else []})
+        if not caught:
+            raise vlib.ToolError(f"Apalache did not refute the seeded defect {ci}/{ni} of {module}")
+    st.notes["symbolic"] = note or "inputs are symbolic"
+    st.wall = time.time() - t0
+    return st
